@@ -7,6 +7,14 @@
 (* write the harness waits (generous deadline) and logs `conv` with each consumer's view: the    *)
 (* contract's Converged must hold.  TLC rebuilds `hist` and checks every snapshot against         *)
 (* SyncerContract (RealStates, Monotone, Distinct).                                              *)
+(*                                                                                              *)
+(* Keys of the recorded contents: k1 (watched by the single-key consumers), k1x (under the       *)
+(* prefix, its name has k1 as a string prefix: not part of a single-key consumer's content), k2, *)
+(* k3 and the pseudo-key `fill` standing for the ~1300 filler keys of a "big" scenario, which    *)
+(* sort between k2 and k3 and are written once before the consumers start: "f1" = exactly the    *)
+(* fillers with their values, "none" = no filler, any other value = something else (it matches   *)
+(* no content of the store, so RealStates rejects it).  In big scenarios every write uses a      *)
+(* value never used before, so that a snapshot mixing two store revisions is no content of hist. *)
 EXTENDS SyncerContract, Json, TLC, IOUtils
 
 TLog == ndJsonDeserialize(IOEnv.VERIF_TRACE)
